@@ -748,6 +748,14 @@ class TermBuilder(object):
                 return ('ext', obj.qualname)
             if kind == 'module':
                 return ('ext', obj.name)
+            if kind == 'value':
+                mod, nm = obj
+                vals = mod.assigns.get(nm, [])
+                if len(vals) == 1 and isinstance(vals[0], ast.Constant) and isinstance(vals[0].value, (int, float, str, bool, type(None))):
+                    return self._b(vals[0], {}, {})              # module-level constant
+                if len(vals) == 1 and isinstance(vals[0], ast.UnaryOp) and isinstance(vals[0].operand, ast.Constant):
+                    return self._b(nf.canon(vals[0]), {}, {})
+                return ('ext', mod.name + '.' + nm)
             return ('ext', self.module.name + '.' + e.id)
         if isinstance(e, ast.Attribute):
             base = b(e.value)
@@ -1151,6 +1159,8 @@ def concrete(t, asg):
         return not concrete(t[1], asg)
     if k in ('list', 'tuple'):
         return [concrete(x, asg) for x in t[1]]
+    if k == 'ifexp':
+        return concrete(t[2] if concrete(t[1], asg) else t[3], asg)
     raise Unsupported('cannot evaluate `%s` concretely' % show(t))
 
 
